@@ -1,6 +1,6 @@
 SPECIFICATION Spec
 CONSTANTS
-  MaxOps = 5
+  MaxOps = 4
   UnitKinds = {}
   MaxPos = 1
   Sigs = {}
